@@ -7,7 +7,7 @@ part, and evaluates the Spec oracle on the *observed* result. Line kinds (tokens
   hist  <gen> <count> <sumq> <bounds> <counts>                                        => <count> <sumq> <b:c,…>
   expo  <gen> <count> <sumq> <scale> <zc> <posOff> <pos> <negOff> <neg>               => none | <count> <sumq> <schema> <zc> <pos> <neg>
   val   <gen> | <name> <desc> <c|g|h> | …                                             => <drop>:<help> …
-  e2e   <gen> <6 flags> <ns raw|-> <res kvs> | S <name> <ver> | I <dtype> <name> <unit> <desc> | P <kvs> <payload…> …
+  e2e   <gen> <6 flags>[<early>] <ns raw|-> <res kvs> | S <name> <ver> | I <dtype> <name> <unit> <desc> | P <kvs> <payload…> …
                                                                                       => panic | <ok|err> | F <name> <t> <help> | M <kvs> <payload…> …
   race  <gen> <n> => ok|race|panic|hang|fail:…   (observation only; gen `coldres` = concurrent first scrapes, the F35 witness round)
 -/
@@ -260,13 +260,14 @@ def runVal : List Fam → List Spec.Op → List String
     let (f', drop, help) := validate fams n d t
     s!"{if drop then 1 else 0}:{hexOf help}" :: runVal f' r
 
-/-- reference: decided by the *first* operation with the same name -/
+/-- reference: decided by the *first* operation with the same name: dropped iff the type differs; else the help is the
+first operation's description -/
 def refVal : List Spec.Op → List Spec.Op → List String
   | _, [] => []
   | before, (n, d, t) :: r =>
     let s := match before.find? (fun o => o.1 == n) with
-      | none => s!"0:{hexOf []}"
-      | some (_, d0, t0) => if t0 != t then s!"1:{hexOf []}" else if d0 != d then s!"0:{hexOf d0}" else s!"0:{hexOf []}"
+      | none => s!"0:{hexOf d}"
+      | some (_, d0, t0) => if t0 != t then s!"1:{hexOf []}" else s!"0:{hexOf d0}"
     s :: refVal (before ++ [(n, d, t)]) r
 
 def stepVal (groups : List (List String)) (obs : List String) : Option Verdict := do
@@ -274,13 +275,24 @@ def stepVal (groups : List (List String)) (obs : List String) : Option Verdict :
   let m := runVal [] ops
   let r := refVal [] ops
   let conflicts := m.any (fun s => s.startsWith "1")
-  let helps := m.any (fun s => s.length > 3)
+  let helps := (ops.zip m).any (fun om => om.2.startsWith "0:" && om.2 != s!"0:{hexOf om.1.2.1}")
   pure { agree := m == obs, spec := if r == obs then "ok" else "FAIL", nontrivial := conflicts || helps,
          branches := tags (tag conflicts "type-conflict" ++ tag helps "help-conflict" ++ tag (!conflicts && !helps) "plain"),
          model := " ".intercalate m }
 
 def stepE2E (flags nsTok resTok : String) (groups : List (List String)) (obs : List String) : Option Verdict := do
-  let [l, u, c, s, t, r] := flags.toList | none
+  -- optional 7th flag: one scrape happened *before* the exporter was registered with a MeterProvider; the observed part
+  -- is then `<early scrape> || <scrape>`
+  let (l, u, c, s, t, r, early) ← match flags.toList with
+    | [l, u, c, s, t, r] => some (l, u, c, s, t, r, false)
+    | [l, u, c, s, t, r, e] => (parseBool e).map fun e => (l, u, c, s, t, r, e)
+    | _ => none
+  let earlyObs := if early then obs.takeWhile (· != "||") else []
+  let obs := if early then (obs.dropWhile (· != "||")).drop 1 else obs
+  let earlyModel := (let (err, fams) := gather collectNotRegistered; renderFams err fams)
+  let earlyAgree := !early || " ".intercalate earlyObs == earlyModel
+  -- before registration nothing is configured: nothing may be exposed (no error, no panic)
+  let earlyOK := !early || earlyObs == ["ok"]
   let legacy ← parseBool l
   let cfg : Cfg := ⟨legacy, ← parseBool u, ← parseBool c, ← nsOf legacy nsTok⟩
   let scopes ← parseScopes groups []
@@ -296,7 +308,7 @@ def stepE2E (flags nsTok resTok : String) (groups : List (List String)) (obs : L
         let fams ← parseFams fg []
         if e == "ok" then some ⟨false, false, fams⟩ else if e == "err" then some ⟨false, true, fams⟩ else none
       | _ => none
-  let spec := Spec.promOK esc sc o
+  let spec := if !earlyOK then "FAIL" else Spec.promOK esc sc o
   let insts := Spec.allInsts sc
   let dts := (insts.map (fun si => match si.2.dtype with
     | .sumMono => "counter" | .sumNon => "updown" | .gauge => "gauge" | .hist => "hist" | .expo => "expo")).eraseDups
@@ -313,7 +325,8 @@ def stepE2E (flags nsTok resTok : String) (groups : List (List String)) (obs : L
   let br := dts ++ tag exAcc "exemplar-accepted" ++ tag exRej "exemplar-rejected" ++ tag exInf "exemplar-inf" ++
     tag legacy "legacy" ++ tag conflict "same-family" ++ tag merged "merged" ++ tag sc.noScope "noscope" ++
     tag sc.noTarget "notarget" ++ tag sc.resConst "resconst" ++ tag (cfg.ns != []) "ns" ++ tag (scopes.length > 1) "scopes2"
-  pure { agree := ms == " ".intercalate obs, spec := spec, nontrivial := !insts.isEmpty, branches := tags br, model := ms }
+  pure { agree := earlyAgree && ms == " ".intercalate obs, spec := spec, nontrivial := !insts.isEmpty,
+         branches := tags (br ++ tag early "early-scrape"), model := (if early then earlyModel ++ " || " else "") ++ ms }
 
 def step (_ : Unit) (toks : List String) : Unit × Option Verdict :=
   let (inp, obs) := splitObs toks
